@@ -1,5 +1,5 @@
 """C06 — conditional critical sections wake every waiter whose condition became true."""
-from props.shared import mu_groups, mu_lemmas
+from props.shared import mu_groups, mu_lemmas, mu_condq_groups
 
 ID = "C06"
 LEVEL = "other"
@@ -20,4 +20,4 @@ PARALLEL = 14
 
 
 def groups(tier):
-    return mu_groups(tags=["C06"]) + mu_lemmas(tags=["C06"])
+    return mu_groups(tags=["C06"], tier=tier) + mu_lemmas(tags=["C06"]) + mu_condq_groups(tags=["C06"], tier=tier)
